@@ -1784,6 +1784,35 @@ def _ids_codec_by_id():
     return "true" if ok else "false"
 
 
+@fact("ids_tables_forget_ok", "bool", "false")
+def _ids_tables_forget_ok():
+    """every per-channel table of the ChannelFactory is emptied by _no_longer_opened, and the RECONFIGURE handler never
+    instantiates a Channel object (dropping it again would send CHANNEL_CLOSE for a channel that is merely being configured)"""
+    init = find("gateway_base.py", "ChannelFactory.__init__")
+    tables = []
+    for st in ast.walk(init):
+        tgt = None
+        if isinstance(st, ast.AnnAssign):
+            tgt, val = st.target, st.value
+        elif isinstance(st, ast.Assign) and len(st.targets) == 1:
+            tgt, val = st.targets[0], st.value
+        if tgt is not None and isinstance(tgt, ast.Attribute) and val is not None:
+            v = unparse(val)
+            if v in ("{}", "dict()", "[]", "set()") or "Dictionary(" in v or "defaultdict" in v:
+                tables.append(tgt.attr)
+    nlo = _src(find("gateway_base.py", "ChannelFactory._no_longer_opened"))
+    ok = sorted(tables) == ["_callbacks", "_channels", "_strconfigs"] and all(f"self.{t}.pop(id, None)" in nlo for t in tables)
+    h = _src(find("gateway_base.py", "Message._reconfigure"))
+    ok = ok and "gateway._channelfactory._local_reconfigure(message.channelid, strconfig)" in h and ".new(" not in h and "Channel(" not in h
+    lr = _src(find("gateway_base.py", "ChannelFactory._local_reconfigure"))
+    ok = ok and ".new(" not in lr and "Channel(" not in lr and "self._strconfigs[id] = strconfig" in lr
+    nw = _src(find("gateway_base.py", "ChannelFactory.new"))
+    ok = ok and "self._strconfigs.pop(id, None)" in nw
+    ld = _src(find("gateway_base.py", "Unserializer.load_channel"))
+    ok = ok and "self.channelfactory." not in ld.replace("self.channelfactory.new(id)", "")
+    return "true" if ok else "false"
+
+
 DIGESTS = [
     ("gateway_base.py", "WorkerGateway._local_schedulexec"),
     ("gateway_base.py", "WorkerGateway.executetask"),
